@@ -1168,6 +1168,69 @@ func ruleKeySchedule(c *Checker, rule string) {
 		c.decide(bad == "" && len(sites) >= 4, rule, "InitializeKey|called from the key schedule only", initKey.Pos(), fmt.Sprintf("%d call sites: InitializeKeyWithSalt, rotateKey, mixKey, InitializeSymmetric", len(sites)),
 			"InitializeKey is also called from "+bad+": a cipher state can be (re)keyed outside the key schedule - with a stale or all-zero key, and with the nonce reset under a key that was already used")
 	}
+	// the ratchet: rotateKey derives the next key from the key in use (secretKey) and the salt. The
+	// key in use is what InitializeKey was given, stored whole, by InitializeKey alone and never
+	// overwritten (a wiped or stale secretKey makes every later epoch a function of the salt only, and
+	// both directions start from the same salt)
+	fSecret := w.Field("mailbox.cipherState.secretKey")
+	rot := mboxFunc(c, "(*mailbox.cipherState).rotateKey")
+	if fSecret == nil || rot == nil {
+		c.anchorFail("mailbox.cipherState.secretKey / rotateKey")
+		return
+	}
+	badStore, nStore := "", 0
+	for _, st := range w.Stores(fSecret) {
+		fn := st.Parent()
+		if strings.HasSuffix(w.Fset.Position(instrPos(st)).Filename, "_test.go") {
+			continue
+		}
+		nStore++
+		if fn != initKey {
+			badStore = "written in " + fnName(fn)
+			continue
+		}
+		if p, ok := unwrapLoadAlloc(st.Val).(*ssa.Parameter); !ok || p != initKey.Params[1] {
+			badStore = "InitializeKey stores " + w.canonFB(st.Val) + " instead of its key argument"
+		}
+	}
+	// partial writes (element stores, copy into a slice of the field) outside InitializeKey
+	for _, fa := range w.FieldAddrs(fSecret) {
+		if fa.Parent() == initKey || fa.Parent() == nil {
+			continue
+		}
+		for _, r := range *fa.Referrers() {
+			switch r.(type) {
+			case *ssa.IndexAddr, *ssa.Slice:
+				if fa.Parent() != rot {
+					badStore = "secretKey is sliced/indexed in " + fnName(fa.Parent())
+				}
+			}
+		}
+	}
+	c.decide(badStore == "" && nStore == 1, rule, "secretKey|the key in use is the one InitializeKey was given", initKey.Pos(), "one store: secretKey = key, in InitializeKey",
+		"the key the ratchet starts from is not the key in use ("+badStore+fmt.Sprintf("; %d stores", nStore)+"): after the first rotation the keys no longer depend on the handshake secret of their direction")
+	usesOld := false
+	allInstrs(rot, func(in ssa.Instruction) {
+		call, ok := in.(*ssa.Call)
+		if !ok || !staticCalleeIs(call.Common(), "golang.org/x/crypto/hkdf", "", "New") || len(call.Common().Args) < 3 {
+			return
+		}
+		if sl, ok := call.Common().Args[1].(*ssa.Slice); ok {
+			for _, v := range expandValues(sl.X) {
+				if al, ok := v.(*ssa.Alloc); ok {
+					for _, sv := range localStores(al) {
+						if fieldOfValue(sv) == fSecret {
+							usesOld = true
+						}
+					}
+				}
+				if fa, ok := v.(*ssa.FieldAddr); ok && structFieldOf(fa) == fSecret {
+					usesOld = true
+				}
+			}
+		}
+	})
+	c.decide(usesOld, rule, "rotateKey|HKDF input key is the key in use", rot.Pos(), "hkdf.New(sha256, secretKey, salt, nil)", "rotateKey does not derive the next key from the key in use")
 }
 
 // ruleEphemeralFresh: the transport keys of two sessions between the same two static keys differ
